@@ -118,6 +118,8 @@ def dnskey_rsa(exponent: int, modulus: int, flags_index: int) -> bool:
     explen, modlen = P['EXPLEN'], P['MODLEN']
     if not (2 ** (8 * explen - 8) <= exponent < 2 ** (8 * explen) and 2 ** (8 * modlen - 1) <= modulus < 2 ** (8 * modlen)):
         return True       # canonical RFC 3110 form: no leading zero octets in the exponent, full-size modulus
+    if explen == 1 and not any([exponent == item for item in (3, 17, 255)]):  # pylint: disable=use-a-generator
+        return True       # (a fully symbolic one-byte exponent sends the engine into value-by-value realisation)
     flag_words = [0x0000, 0x0100, 0x0101, 0x0180, 0x0181, 0x0001, 0x0080, 0x0081]
     if not 0 <= flags_index < len(flag_words):
         return True
@@ -322,7 +324,7 @@ def sample_args(rng, kwargs):
         elif name == 'modulus' and 'MODLEN' in P:
             out[name] = rng.randrange(2 ** (8 * P['MODLEN'] - 1), 2 ** (8 * P['MODLEN']))
         elif name == 'exponent':
-            out[name] = rng.randrange(2 ** (8 * P['EXPLEN'] - 8), 2 ** (8 * P['EXPLEN']))
+            out[name] = rng.choice([3, 17, 255]) if P['EXPLEN'] == 1 else rng.randrange(2 ** (8 * P['EXPLEN'] - 8), 2 ** (8 * P['EXPLEN']))
         elif name == 'flags_index':
             out[name] = 1
         elif name in ('first', 'second') and kwargs[name].__class__ is bytes:
